@@ -211,6 +211,60 @@ def h_class_header(eng, lang, small_pools=False):
     return obs
 
 
+def h_create_type_params(eng, lang):
+    """_create_type_params_from_etype: the type parameters created for a class that must mention a given type"""
+    shape = int(eng.fresh_int(0, 2, 'shape'))
+    dis_usv = bool(eng.fresh_bool('dis_use_site_variance'))
+    g = make_generator(lang, False, True)
+    T, U = tp.TypeParameter('T'), tp.TypeParameter('U', bound=g.bt_factory.get_integer_type())
+    Gt = g.context.get_classes(ast.GLOBAL_NAMESPACE)['Gg'].get_type()
+    etype = {0: T, 1: Gt.new([T]), 2: Gt.new([Gt.new([U])])}[shape]
+    g.namespace = ast.GLOBAL_NAMESPACE + ('Cls',)
+    with installed(eng) as rnd, config(dis__use_site_variance=dis_usv, limits__max_type_params=2,
+                                       prob__bounded_type_parameters=0):
+        tps, tvm, can_wild = g._create_type_params_from_etype(etype)
+        log = list(rnd.log)
+    case = dict(unit='_create_type_params_from_etype', language=lang, etype=str(etype), type_parameters=[str(t) for t in tps],
+                rng=log[:10])
+    variant = [t for t in tps if t.variance != tp.Invariant]
+    obs = [Ob('create_type_params|declaration-site-variance-only-in-kotlin-scala', not variant or lang in ('kotlin', 'scala'), case),
+           Ob('create_type_params|mapped-parameters-invariant', all(v.variance == tp.Invariant for v in tvm.values()), case)]
+    obs2, _ = switch_obs('create_type_params', tps, dis_usv, False, case)
+    eng.event('created')
+    if len(tps) > len(tvm):
+        eng.event('surplus-parameter')
+    eng.notes['sample'] = case
+    return obs + obs2
+
+
+def h_cli(eng):
+    """the four command-line switches reach the configuration singleton: src.args is imported in a fresh
+    interpreter for every combination of the four flags (it parses sys.argv at import)"""
+    import json as _json
+    import subprocess
+    import sys as _sys
+    flags = [('--disable-use-site-variance', bool(eng.fresh_bool('f_usv'))),
+             ('--disable-contravariance-use-site', bool(eng.fresh_bool('f_contra'))),
+             ('--disable-bounded-type-parameters', bool(eng.fresh_bool('f_bounded'))),
+             ('--disable-parameterized-functions', bool(eng.fresh_bool('f_pf')))]
+    argv = ['hephaestus.py', '--bugs', '/nonexistent-vcheck', '--name', 'x', '--iterations', '1'] + [f for f, on in flags if on]
+    code = ('import sys, json; sys.argv=%r; import src.args; from src.generators.config import cfg; '
+            'print(json.dumps([cfg.dis.use_site_variance, cfg.dis.use_site_contravariance, '
+            'cfg.prob.bounded_type_parameters, cfg.prob.parameterized_functions]))' % (argv,))
+    r = subprocess.run([_sys.executable, '-c', code], cwd=REPO, capture_output=True, text=True, timeout=120,
+                       env=dict(os.environ, PYTHONPATH=REPO))
+    case = dict(flags=[f for f, on in flags if on], stdout=r.stdout[-200:], stderr=r.stderr[-300:])
+    if r.returncode != 0:
+        return [Ob('cli|src.args-imports', False, case)]
+    usv, contra, bounded, pf = _json.loads(r.stdout.strip().splitlines()[-1])
+    eng.event('cli')
+    eng.notes['sample'] = case
+    return [Ob('cli|use-site-variance', bool(usv) == flags[0][1], case),
+            Ob('cli|use-site-contravariance', bool(contra) == flags[1][1], case),
+            Ob('cli|bounded-type-parameters', (bounded == 0) == flags[2][1], case),
+            Ob('cli|parameterized-functions', (pf == 0) == flags[3][1], case)]
+
+
 def h_variable_free(eng, lang):
     """the two helpers that rebuild a type without type variables -- they create projections"""
     dis_usv = bool(eng.fresh_bool('dis_use_site_variance'))
@@ -301,6 +355,9 @@ def jobs(tier):
                bounds='as C08 variance lemma', outside=OUT),
            Job('wildcard-construction-sites', h_sites, {}, serial=True, crosscheck_every=0, functions=[],
                require_events=['sites-scanned'], bounds='AST scan of /repo/src at run time', outside=OUT)]
+    out.append(Job('cli-switch-wiring', h_cli, {}, split_depth=2, crosscheck_every=0, functions=[], require_events=['cli'],
+                   bounds='all 16 combinations of the four --disable-* flags, src.args imported in a fresh interpreter',
+                   outside=OUT))
     langs = LANGS if tier == 'thorough' else ['java', 'kotlin']
     sp = tier == 'quick'
     pools = ('built-in pools {Int, void}, no function types' if sp else 'built-in pools {Int, top, void} + Function1')
@@ -321,6 +378,11 @@ def jobs(tier):
         out.append(Job('gen_class_decl-header-%s' % lang, h_class_header, dict(lang=lang, small_pools=sp), split_depth=6, functions=FUNCS,
                        stubs=STUBS, require_events=['class'] + (['variant-class'] if lang in ('kotlin', 'scala') else []),
                        crosscheck_every=200, bounds='three switches symbolic; every RNG outcome', outside=OUT))
+        out.append(Job('create_type_params-%s' % lang, h_create_type_params, dict(lang=lang), split_depth=5,
+                       functions=[Generator._create_type_params_from_etype, Generator.gen_type_params], stubs=STUBS,
+                       require_events=['created', 'surplus-parameter'], crosscheck_every=200,
+                       bounds='etype in {T, Gg<T>, Gg<Gg<U : Int>>}; <=2 type parameters, no bounds drawn; use-site-variance switch symbolic; '
+                              'every RNG outcome', outside=OUT))
         out.append(Job('type-variable-free-%s' % lang, h_variable_free, dict(lang=lang), serial=True, functions=FUNCS[7:10],
                        stubs=STUBS, require_events=['rebuilt'],
                        bounds='G<v X> with 3 argument shapes; both switches symbolic', outside=OUT))
